@@ -558,6 +558,8 @@ class Cons:
     def set_variant(self, t, name):
         if is_agg(t):
             return t[3] == name
+        if isinstance(t, tuple) and t and t[0] == "optif" and name in ("Some", "None"):
+            return self.set_known(t[1], 1 if name == "Some" else 0)
         if t in self.variant:
             return self.variant[t] == name
         if name in self.notvariant.get(t, ()):
@@ -592,6 +594,9 @@ class Cons:
     def variant_of(self, t):
         if is_agg(t):
             return t[3]
+        if isinstance(t, tuple) and t and t[0] == "optif":
+            c = self.lookup(t[1])
+            return ("Some" if c[1] else "None") if is_const(c) else None
         return self.variant.get(t)
 
 
@@ -898,6 +903,8 @@ class PX:
                         if r is not None:
                             return r
                     return ("payload", inner, var, name)
+                if inner[0] == "optif" and var == "Some" and name == "0":
+                    return inner[2]
                 return ("payload", inner, var, name)
             if v[0] == "upd":
                 if v[2] == e:
@@ -922,6 +929,11 @@ class PX:
                 return const(ord(v[1][i]))
         if v[0] in ("bytes", "str") and k == "subslice":
             return (v[0], v[1][e[1]:(len(v[1]) - e[2]) if e[3] else e[2]])
+        if k == "subslice" and e[3] and e[2] == 0:
+            # `[a, b, rest @ ..]`: the rest after the first e[1] elements is the same value as indexing with `e[1]..`
+            if v[0] == "slice" and len(v) == 4:
+                return ("slice", v[1], add_terms(v[2], const(e[1])), v[3])
+            return ("slice", v, const(e[1]), None)
         return ("proj", v, e)
 
     def _set_in(self, v, path, val):
@@ -1207,6 +1219,13 @@ class PX:
             if not is_const(v):
                 self.mark_bool(v)
             return v        # a two-valued flag is its own discriminant
+        if v[0] == "optif":
+            # Some(x) if the condition holds, None otherwise (Option::filter / bool::then_some on a symbolic condition):
+            # Option's discriminants are None = 0, Some = 1, i.e. the condition itself
+            c = st.cons.lookup(v[1])
+            if not is_const(c):
+                self.mark_bool(c)
+            return c
         if v[0] == "setdiscr":
             vn = v[2]
         else:
